@@ -1111,7 +1111,13 @@ impl<'tcx> Ex<'tcx> {
                             continue;
                         }
                         if let Some(v) = self.eval_assoc_const(it.def_id, aargs) {
-                            out.push((it.name().to_string(), v));
+                            // a user constant named like a trait constant (e.g. `ALIGN`) must not shadow the trait's value in the facts
+                            let nm = it.name().to_string();
+                            if out.iter().any(|(k, _)| *k == nm) {
+                                out.push((format!("inherent:{}", nm), v));
+                            } else {
+                                out.push((nm, v));
+                            }
                         }
                     }
                 }
